@@ -83,8 +83,8 @@ Fixpoint neval (r : rns) (a : nexpr) : val :=
   end.
 Fixpoint nceval (r : rns) (c : ncond) : bool :=
   match c with
-  | NLt a b => match neval r a, neval r b with VZ x, VZ y => Z.ltb x y | _, _ => false end
-  | NLe a b => match neval r a, neval r b with VZ x, VZ y => Z.leb x y | _, _ => false end
+  | NLt a b => vlt (neval r a) (neval r b)
+  | NLe a b => vle (neval r a) (neval r b)
   | NEq a b => val_eqb (neval r a) (neval r b)
   | NNe a b => negb (val_eqb (neval r a) (neval r b))
   | NAnd c d => nceval r c && nceval r d
